@@ -809,13 +809,17 @@ Definition cv_leaf : list string :=
   ["RateLimiter"; "Validator"; "RequestAdaptor"; "ResponseAdaptor"; "Proxy"; "Retry"; "CircuitBreaker";
    "RequestBuilder"; "ResponseBuilder"; "Fallback"; "CORSAdaptor"; "TopicMapper"].
 
+Definition nested_acc (o : orc) (q : quirks) (cat : string) (raw : jvalue) (ok : bool) : bool :=
+  let v := validate_leaf o q cat raw in
+  if in_list (raw_kind raw) cv_leaf then v_accept v
+  else (* unmodelled Validate() methods: oracle verdict, plus the generic null-entry repair *)
+       ok && (q_null_entry q || negb (has_null_entry (v_ty v) (v_image v))).
+
 Definition nested (o : orc) (q : quirks) (cat : string) (raws : list jvalue) (orcs : list (bool * string * string))
   : list (bool * string * string * verdict) :=
-  map (fun '(raw, (ok, n, k)) =>
+  map (fun '(raw, (ok, _, _)) =>
          let v := validate_leaf o q cat raw in
-         if in_list (raw_kind raw) cv_leaf then (v_accept v, sget "name" (v_image v), raw_kind raw, v)
-         else (* unmodelled Validate() methods: oracle verdict, plus the generic null-entry repair *)
-              (ok && (q_null_entry q || negb (has_null_entry (v_ty v) (v_image v))), n, k, v))
+         (nested_acc o q cat raw ok, sget "name" (v_image v), raw_kind raw, v))
       (combine raws orcs).
 
 Definition nested_decl (x : bool * string * string * verdict) : bool * string * string :=
